@@ -212,3 +212,92 @@ Print Assumptions C08_real_skein_history_update_bytes.
 Print Assumptions C08_real_any_profile.
 Print Assumptions C08_real_groestl_lockstep.
 Print Assumptions C08_real_examples.
+
+(** audit C08-F2 (work package audit-leftovers, Proofs/LeftoversHasher.v): [blake_hasher] / [skein_hasher]
+    of Model/Hasher.v (the records [C08_crate_hashers_ok] is about) are a second transcription of the
+    BLAKE / Skein finalisation.  Instantiated with the REAL compression and output functions
+    ([blake*_crate], [skein_crate]; panic value [[]]) they are tied to the [*_real] records above:
+    - BLAKE: same [update] on EVERY instance; same [finalize] on every instance satisfying the buffer
+      invariant [inst_wf] (which [h_new] satisfies and [h_update] preserves).  Outside the invariant they
+      can differ: the transcription takes the buffer position after the extra block to be 0 and does not
+      re-check the two [debug_assert_eq!(buffer.position(), 0)]; its padding table is [0x80 :: 0^size]
+      instead of the 129-byte [PADDING] (no slice taken from it is longer than [size + 1]).
+    - Skein: same [new], [update], [finalize] on EVERY instance, through the bijection
+      [St t0 t1 x <-> (x, (t0, t1))] between the two state types ([sk_inst], onto).
+    Hence the same digests in every history and the same one-shot function. *)
+From CC Require Proofs.LeftoversHasher.
+
+Theorem C08_blake_crates_are_blake_hasher :
+  LeftoversHasher.blake256_crate
+    = blake_hasher [] 32 64 1 Model.Blake.BLAKE256_IV Model.Blake.put_block32 (blake_out_bytes 4 32)
+  /\ LeftoversHasher.blake512_crate
+    = blake_hasher [] 64 128 1 Model.Blake.BLAKE512_IV Model.Blake.put_block64 (blake_out_bytes 8 64)
+  /\ LeftoversHasher.blake224_crate
+    = blake_hasher [] 32 64 0 Model.Blake.BLAKE224_IV Model.Blake.put_block32 (blake_out_bytes 4 28)
+  /\ LeftoversHasher.blake384_crate
+    = blake_hasher [] 64 128 0 Model.Blake.BLAKE384_IV Model.Blake.put_block64 (blake_out_bytes 8 48).
+Proof. exact LeftoversHasher.blake_crates_unfold. Qed.
+
+Theorem C08_blake_crate_eq_real_ops :
+  (forall i d, h_update LeftoversHasher.blake224_crate i d = h_update blake224_real i d)
+  /\ (forall i d, h_update LeftoversHasher.blake256_crate i d = h_update blake256_real i d)
+  /\ (forall i d, h_update LeftoversHasher.blake384_crate i d = h_update blake384_real i d)
+  /\ (forall i d, h_update LeftoversHasher.blake512_crate i d = h_update blake512_real i d)
+  /\ (forall i, inst_wf blake224_real i -> h_finalize LeftoversHasher.blake224_crate i = h_finalize blake224_real i)
+  /\ (forall i, inst_wf blake256_real i -> h_finalize LeftoversHasher.blake256_crate i = h_finalize blake256_real i)
+  /\ (forall i, inst_wf blake384_real i -> h_finalize LeftoversHasher.blake384_crate i = h_finalize blake384_real i)
+  /\ (forall i, inst_wf blake512_real i -> h_finalize LeftoversHasher.blake512_crate i = h_finalize blake512_real i).
+Proof. exact LeftoversHasher.blake_crate_eq_real_ops. Qed.
+
+Theorem C08_blake_crate_eq_real_history :
+  forall ops,
+  snd (run LeftoversHasher.blake224_crate [Some (h_new LeftoversHasher.blake224_crate)] ops)
+    = snd (run blake224_real [Some (h_new blake224_real)] ops)
+  /\ snd (run LeftoversHasher.blake256_crate [Some (h_new LeftoversHasher.blake256_crate)] ops)
+    = snd (run blake256_real [Some (h_new blake256_real)] ops)
+  /\ snd (run LeftoversHasher.blake384_crate [Some (h_new LeftoversHasher.blake384_crate)] ops)
+    = snd (run blake384_real [Some (h_new blake384_real)] ops)
+  /\ snd (run LeftoversHasher.blake512_crate [Some (h_new LeftoversHasher.blake512_crate)] ops)
+    = snd (run blake512_real [Some (h_new blake512_real)] ops).
+Proof. exact LeftoversHasher.blake_crate_eq_real_history. Qed.
+
+Theorem C08_blake_crate_eq_real_oneshot :
+  forall msg,
+  h_oneshot LeftoversHasher.blake224_crate msg = h_oneshot blake224_real msg
+  /\ h_oneshot LeftoversHasher.blake256_crate msg = h_oneshot blake256_real msg
+  /\ h_oneshot LeftoversHasher.blake384_crate msg = h_oneshot blake384_real msg
+  /\ h_oneshot LeftoversHasher.blake512_crate msg = h_oneshot blake512_real msg.
+Proof. exact LeftoversHasher.blake_crate_eq_real_oneshot. Qed.
+
+(** [skein_crate nu v n] is [skein_hasher [] (v_bytes v) init process_block output] at the real functions *)
+Theorem C08_skein_crate_is_skein_hasher :
+  forall nu v n,
+    LeftoversHasher.skein_crate nu v n
+    = skein_hasher [] (Model.Skein.v_bytes v) (LeftoversHasher.sk_pair (skein_init nu v n))
+        (LeftoversHasher.skein_pb_pair nu v) (LeftoversHasher.skein_out_real nu v n).
+Proof. exact (fun _ _ _ => eq_refl). Qed.
+
+Theorem C08_skein_crate_eq_real :
+  forall nu v p n,
+  skein_variant_params v p ->
+  (h_new (LeftoversHasher.skein_crate nu v n) = LeftoversHasher.sk_inst (h_new (skein_real nu v n)))
+  /\ (forall i d, h_update (LeftoversHasher.skein_crate nu v n) (LeftoversHasher.sk_inst i) d
+                  = LeftoversHasher.sk_inst (h_update (skein_real nu v n) i d))
+  /\ (forall i, h_finalize (LeftoversHasher.skein_crate nu v n) (LeftoversHasher.sk_inst i)
+                = h_finalize (skein_real nu v n) i)
+  /\ (forall j, exists i, j = LeftoversHasher.sk_inst i)
+  /\ (forall msg, h_oneshot (LeftoversHasher.skein_crate nu v n) msg = h_oneshot (skein_real nu v n) msg)
+  /\ (forall ops, snd (run (LeftoversHasher.skein_crate nu v n) [Some (h_new (LeftoversHasher.skein_crate nu v n))] ops)
+                  = snd (run (skein_real nu v n) [Some (h_new (skein_real nu v n))] ops)).
+Proof. exact LeftoversHasher.skein_crate_eq_real. Qed.
+
+(** non-vacuity: a history through the transcription with a finalisation that needs the extra block *)
+Definition C08_crate_examples := (LeftoversHasher.blake256_crate_example, LeftoversHasher.blake256_crate_history).
+
+Print Assumptions C08_blake_crates_are_blake_hasher.
+Print Assumptions C08_blake_crate_eq_real_ops.
+Print Assumptions C08_blake_crate_eq_real_history.
+Print Assumptions C08_blake_crate_eq_real_oneshot.
+Print Assumptions C08_skein_crate_is_skein_hasher.
+Print Assumptions C08_skein_crate_eq_real.
+Print Assumptions C08_crate_examples.
